@@ -13,7 +13,8 @@ import (
 func corrRefPath(ctx *Ctx, n int) error {
 	names := []string{"Pet", "Error", "Thing1", "Owner"}
 	sections := []string{"schemas", "parameters", "responses", "requestBodies"}
-	docs := []string{"common.json", "other.yaml", "https://x.org/specs/v1.json", "sub/dir.json"}
+	// spellings that differ in leading dots and slashes only are different documents (each mapped, or not, on its own)
+	docs := []string{"common.json", "other.yaml", "https://x.org/specs/v1.json", "sub/dir.json", "../common.json", "./other.yaml", "/common.json", "..common.json"}
 	hexs := func(s string) string { return fmt.Sprintf("%x", []byte(s)) }
 	for i := 0; i < n; i++ {
 		r := ctx.Rng.Fork()
